@@ -166,10 +166,11 @@ CORE = {
         },
     },
     "C10": {
+        "approval_disconnect": True,
         "checked": core.ALL_COMPS,
         "assumptions": [
             "peers announce distinct device addresses and use identical entity/feature numbering",
-            "pending write approvals and their timers are decided by the Approval schedule check (C12) and the teardown scenario there",
+            "pending write approvals: the connection is removed while writes are pending approval at sampled points of forced Approval schedules (timeouts that have elapsed included); nothing may be written to the removed connection afterwards",
             "the entity removed by a notification is never the device-information entity [0] (that is a robustness input, C05)",
         ],
         "quick": {
@@ -228,6 +229,8 @@ def core_runner(prop):
 PROFILES = {p: {"run": core_runner(p)} for p in CORE}
 import sender
 PROFILES["C13"] = {"run": sender.run}
+import approval
+PROFILES["C12"] = {"run": approval.run}
 import tree
 PROFILES["C07"] = {"run": tree.run}
 import listdata
